@@ -245,6 +245,15 @@ func newDateTime(argumentList []Value, location *Time.Location) float64 {
 
 		return value.float64()
 	default: // 2-argument, 3-argument, ...
+		// 15.9.3.1 / 15.9.4.3 steps 1-7: ToNumber is applied to every field argument,
+		// in order, whatever the earlier ones are, before the fields are composed.
+		argumentList = append([]Value(nil), argumentList...)
+		for index := 0; index < len(argumentList) && index < 7; index++ {
+			if argumentList[index].IsObject() {
+				argumentList[index] = float64Value(argumentList[index].float64())
+			}
+		}
+
 		var year, month, day, hour, minute, second, millisecond float64
 		var invalid bool
 		if year, invalid = pick(0, 1900.0); invalid {
